@@ -192,6 +192,26 @@ def run_case(ck, desc):
                 ck.violation("interpolator-at-nodes", {"after": "recovery_factor(time=other report times)", "max_rel": float(np.max(np.abs(at5 - rf1))) / scale5, "len_q": len(q), "nt": nt}, desc)
             ck.count("interpolators_checked_after_recovery_with_time_argument")
 
+    # both kinds of recovery asked of one run, an interpolator handed out in between: every interpolator
+    # reproduces the recovery returned LAST (by flux, then by density, and the other way round)
+    if strictly and nt >= 3 and desc["cls"] == "single" and rfd1 is not None and np.all(np.isfinite(rfd1)):
+        for first in (False, True):
+            res7, _, _, _, _, _ = _run(dict(desc, reused=False), t.copy())
+            try:
+                with np.errstate(all="ignore"), warnings.catch_warnings():
+                    warnings.simplefilter("ignore")
+                    for dens_ in (first, not first, first):
+                        r7 = np.array(res7.recovery_factor(density=dens_), dtype=float, copy=True)
+                        ip7 = res7.recovery_factor_interpolator()
+                        at7 = np.asarray(ip7(t), dtype=float)
+                        sc7 = max(float(np.max(np.abs(r7))), 1e-300)
+                        ck.count("interpolators_checked_after_the_other_kind_of_recovery")
+                        if float(np.max(np.abs(at7 - r7))) / sc7 > 1e-12 or float(ip7(t[-1] + 50.0)) != r7[-1]:
+                            ck.violation("interpolator-at-nodes", {"after": "flux and density recoveries asked in turn, an interpolator in between", "latest_recovery_by_density": bool(dens_), "max_rel": float(np.max(np.abs(at7 - r7))) / sc7, "after_last_time": float(ip7(t[-1] + 50.0)), "final": float(r7[-1])}, desc)
+                            break
+            except Exception as e:  # noqa: BLE001
+                ck.violation("interpolator-at-nodes", {"after": "flux and density recoveries asked in turn", "raised": repr(e)}, desc)
+
     # interpolator after a run whose recovery is NOT monotone (frac-face pressure rising late)
     if desc["cls"] == "single" and strictly and nt >= 5:
         from vf import tables as _tb
